@@ -222,7 +222,14 @@ class OpSequence(Harness):
         if 'trace' not in nat: return False, 'native: %r' % (nat,)
         nt = tree_from_debug(nat['trace'][-1]['regs'][0])
         if nt != s['result']['tree']: return False, 'tree differs on %r: native %s rsym %s' % (c, json.dumps(nt)[:300], json.dumps(s['result']['tree'])[:300])
-        if s['result']['output'] is not None and nat['outputs'][0] != s['result']['output']: return False, 'output differs on %r' % (c,)
+        if s['result']['output'] is not None and nat['outputs'][0] != s['result']['output']:
+            # children with equal `position` (possible after a removal) are ordered by an unstable sort: any order is a legitimate outcome, so the
+            # comparison falls back to the set of structs with their fields (field ORDER is C09's subject)
+            def norm(t):
+                return sorted((st['name'], tuple(sorted((f['ident'], str(f['rename']), json.dumps(f['type'], sort_keys=True)) for f in st['fields']))) for st in read_output(t))
+            try:
+                if norm(nat['outputs'][0]) != norm(s['result']['output']): return False, 'output differs on %r' % (c,)
+            except Malformed: return False, 'output differs on %r' % (c,)
         return True, None
     def native_violation(self, a, replay):
         """replay the operation list natively and compare the final tree with a concrete run of the ordered-map model"""
